@@ -387,7 +387,8 @@ class Run:
 
     # --------------------------------------------------------------- finish
     def write_evidence(self, level="model_checking"):
-        os.makedirs(os.path.join(VERIF, "evidence"), exist_ok=True)
+        evdir = os.environ.get("VERIF_EVIDENCE_DIR") or os.path.join(VERIF, "evidence")
+        os.makedirs(evdir, exist_ok=True)
         cov = dict(
             states=max(self.mc_states, 0) + self.trace_states,
             transitions=self.mc_transitions + self.trace_states,
@@ -408,7 +409,7 @@ class Run:
         cov.update(self.extra)
         ev = dict(property_id=self.pid, tier=self.tier, seed=self.seed, level=level, coverage=cov,
                   assumptions=self.assumptions, wall_s=round(time.time() - self.t0, 1), violations=len(self.violations))
-        p = os.path.join(VERIF, "evidence", self.pid + ".json")
+        p = os.path.join(evdir, self.pid + ".json")
         json.dump(ev, open(p, "w"), indent=1)
         return p
 
